@@ -93,3 +93,14 @@ Definition simple_loop (V kv kf : nat) : lstmt :=
 (* chunk_header::parse refuses to go on after a failure *)
 Definition guarded_loop (V kv kf : nat) : lstmt :=
   LSeq (LIf (LFlag kf) (LReturn (LConst false)) LSkip) (simple_loop V kv kf).
+
+(* a for loop over a string whose body is a statement of M_Imp.v on the character *iter (are_headers_split): the body
+   runs once per character, a return inside it ends the function, falling out of the loop returns `final` *)
+Fixpoint run_for (lim : nat -> N) (body : stmt) (final : bool) (s : store) (l : str) : bool :=
+  match l with
+  | [] => final
+  | c :: t => match exec lim c body s with
+              | (OReturn v, _) => v
+              | (_, s1) => run_for lim body final s1 t
+              end
+  end.
